@@ -13,6 +13,9 @@ from mc.engine import hbfs, par
 from mc.engine.report import Violation, HarnessError
 from mc.engine.seams import Canon, new_model
 
+import abc
+import copy
+
 import ECAgent.Core as Core
 import ECAgent.Environments as Envs
 
@@ -67,6 +70,32 @@ class F(Core.Component):
         return 0
 
 
+class Resource(Core.Component, metaclass=abc.ABCMeta):
+    """A family of component types written with abc (the classes' metaclass is ABCMeta, not type)."""
+
+    @abc.abstractmethod
+    def unit(self):
+        ...
+
+
+class Water(Resource):
+    def unit(self):
+        return 'l'
+
+
+class Stock(Core.Component):
+    """Identity equality is kept; the hash follows a field that changes while the model runs."""
+    level = 0
+
+    def __hash__(self):
+        return hash(('Stock', self.level))
+
+
+class Ledger(Core.Component):
+    """Identity equality, not hashable."""
+    __hash__ = None
+
+
 class Bag(Core.Agent):
     """An agent class with its own notion of length (e.g. the number of items it carries): here always 0."""
 
@@ -100,6 +129,95 @@ def odd_agent(i, m):
         Herd.add_class_component(Y(Herd, m))
         return Herd(f'g{i}', m)
     return Core.Agent(f'g{i}', m)
+
+
+class DModel(Core.Model):
+    @staticmethod
+    def decode(params):
+        return new_model(seed=params.get('seed'), cls=DModel)
+
+
+class Citizen(Core.Agent):
+    def __init__(self, id, model):
+        super().__init__(id, model)
+        self.add_component(X(self, model))
+
+    @staticmethod
+    def decode(params):
+        return Citizen(params['prefix'] + str(params['agent_index']), params['model'])
+
+
+class Officer(Citizen):
+    def __init__(self, id, model):
+        super().__init__(id, model)
+        self.add_component(Y(self, model))
+
+    @staticmethod
+    def decode(params):
+        return Officer(params['prefix'] + str(params['agent_index']), params['model'])
+
+
+def build_world(params):
+    mk, _ = KINDS[params['kind']]
+    model = params['model']
+    if params.get('how') == 'set_environment':
+        model.set_environment(mk(model) if mk is not None else Core.Environment(model))
+    else:
+        model.environment = mk(model) if mk is not None else Core.Environment(model)
+
+
+def decoded_case(case):
+    """The population is created by the decoder; the world the agents are meant to live in is installed by a hook that
+    runs just before the first group is created.  Afterwards each listing mirrors the residents of the model's
+    environment; two models decoded from one description stay apart."""
+    from mc.engine.seams import reset_library
+    from ECAgent.Decode import Decoder
+    reset_library()
+
+    class Dict(Decoder):
+        def open_file(self, file_name):
+            return copy.deepcopy(file_name)
+    hook = {'func': 'build_world', 'module': __name__, 'params': {'kind': case['kind'], 'how': case['how']}}
+    groups = []
+    for gi, (name, n) in enumerate(case['groups']):
+        g = {'name': name, 'module': __name__, 'number': n, 'params': {'prefix': f'{name[0].lower()}{gi}_'}}
+        if gi == 0 and case['hook'] == 'pre_agent_init':
+            g['pre_agent_init'] = copy.deepcopy(hook)
+        groups.append(g)
+    desc = {'model': {'name': 'DModel', 'module': __name__, 'params': {'seed': 1}}, 'systems': [], 'agents': groups}
+    if case['hook'] == 'system_hook':
+        desc['systems'] = []
+    models = [Dict().decode(desc), Dict().decode(desc)]
+    for m in models:
+        res = list(m.environment)
+        exp_ids = [f'{name[0].lower()}{gi}_{i}' for gi, (name, n) in enumerate(case['groups']) for i in range(n)]
+        if [a.id for a in res] != exp_ids:
+            raise Violation(f'decoded population ({case}): residents of the model\'s environment', expected=exp_ids,
+                            observed=[a.id for a in res])
+        for T in (X, Y):
+            exp = [a[T] for a in res if T in a] or None
+            got = m.systems[T]
+            if (got is None) != (exp is None) or (got is not None and [id(c) for c in got] != [id(c) for c in exp]):
+                raise Violation(f'decoded population ({case}): listing of {T.__name__} differs from the components of the '
+                                f'agents in the model\'s environment', expected=exp and [c.agent.id for c in exp],
+                                observed=got and [c.agent.id for c in got])
+    a, b = models
+    if exp_ids:
+        a.environment.remove_agent(exp_ids[0])
+        gx = a.systems[X]
+        if [c.agent.id for c in (gx or [])] != exp_ids[1:] or [c.agent.id for c in (b.systems[X] or [])] != exp_ids:
+            raise Violation(f'decoded population ({case}): after the first agent left one of two models')
+    return 2 * len(exp_ids) + 1
+
+
+def decoded_cases():
+    for kind in ('plain', 'grid', 'space'):
+        for how in ('assign', 'set_environment'):
+            for hook in ('pre_agent_init', 'none'):
+                for groups in ([['Citizen', 3], ['Officer', 2]], [['Officer', 1]], [['Citizen', 0], ['Officer', 2]]):
+                    if hook == 'none' and (how != 'assign' or kind != 'plain'):
+                        continue
+                    yield {'leg': 'decoded', 'kind': kind, 'how': how, 'hook': hook, 'groups': groups}
 
 
 def handover_case(case):
@@ -164,28 +282,43 @@ def scale_case(case):
     if mk is not None:
         m.environment = mk(m)
     env = m.environment
-    types = {'X': X, 'Y': Y, 'P2': P2, 'F': F}
+    types = {'X': X, 'Y': Y, 'P2': P2, 'F': F, 'W': Water, 'S': Stock, 'L': Ledger}
+    carries = {'X': lambda i: True, 'Y': lambda i: i % 2, 'P2': lambda i: i % 3 == 0, 'F': lambda i: i % 4 == 1,
+               'W': lambda i: i % 4 == 2, 'S': lambda i: i % 3 == 1, 'L': lambda i: i % 5 == 0}
     agents, comps = [], {}
+    stocks = []
     for i in range(n):
         a = odd_agent(i, m)
-        for T in ('X',) + (('Y',) if i % 2 else ()) + (('P2',) if i % 3 == 0 else ()) + (('F',) if i % 4 == 1 else ()):
+        for T in [T for T in types if carries[T](i)]:
             # every tenth agent's components were built before the agent existed (their back-reference is empty): they
             # are the agent's components all the same
             c = types[T](None if i % 10 == 2 and T != 'P2' else a, m)
             a.add_component(c)
             comps[id(c)] = (i, T)
+            if T == 'S':
+                stocks.append(c)
         agents.append(a)
     res = []
 
     def check(what):
         for T, cls in types.items():
-            got = m.systems[cls]
-            exp = [(i, T) for i in res if (T == 'X') or (T == 'Y' and i % 2) or (T == 'P2' and i % 3 == 0) or
-                   (T == 'F' and i % 4 == 1)]
-            got_n = None if got is None else [comps.get(id(c), ('?', type(c).__name__)) for c in got]
-            if got_n != (exp or None):
-                raise Violation(f'{what}: listing of {T} differs from the residents\' components in joining order '
-                                f'({kind}, {n} agents)', expected=exp[:12], observed=(got_n or [])[:12])
+            exp = [(i, T) for i in res if carries[T](i)]
+            for how, got in (('systems[T]', m.systems[cls]), ('get_components(T)', m.systems.get_components(cls)),
+                             ('component_pools', m.systems.component_pools.get(cls) or None)):
+                got_n = None if got is None else [comps.get(id(c), ('?', type(c).__name__)) for c in got]
+                if got_n != (exp or None):
+                    raise Violation(f'{what}: listing of {T} differs from the residents\' components in joining order '
+                                    f'({kind}, {n} agents; read through {how})', expected=exp[:12],
+                                    observed=(got_n or [])[:12])
+            try:
+                got = m.systems[cls, True]
+            except KeyError:
+                got = None
+            if (got is None) != (not exp) or (got is not None and len(got) != len(exp)):
+                raise Violation(f'{what}: systems[{T}, True] ({kind}, {n} agents)', expected=len(exp),
+                                observed=None if got is None else len(got))
+        for c in stocks:            # the stocks change while the model runs
+            c.level += 1
         if [a.id for a in env] != [f'g{i}' for i in res]:
             raise Violation(f'{what}: residents differ')
 
@@ -631,6 +764,16 @@ def run(ctx):
             except Violation as v:
                 ctx.report(case, v)
                 return
+    nd = 0
+    for case in decoded_cases():
+        ctx.traces += 1
+        nd += 1
+        try:
+            ctx.transitions += hbfs._guard(decoded_case, case)
+        except Violation as v:
+            ctx.report(case, v)
+            return
+    ctx.leg('decoded', cases=nd, note='population created by the decoder, world installed by a pre-agent hook; two models')
     ctx.leg('population', note='5 and 40 agents with X / Y / user subclass of PositionComponent; victims leave and '
                                're-join; model marked complete before a join or a leave')
     if ctx.small:
@@ -667,6 +810,9 @@ def run(ctx):
 
 
 def replay(case):
+    if case['leg'] == 'decoded':
+        hbfs._guard(decoded_case, case)
+        return
     if case['leg'] == 'handover':
         hbfs._guard(handover_case, case)
         return
